@@ -80,6 +80,7 @@ def catalog():
     _cat['same_name_codes'] = [ks for v, ks in sorted(byname.items()) if len(ks) >= 2]
     _cat['names_ids'] = sorted(ids[n] for n in _cat['names'])
     _cat['all_ids'] = set(table)
+    _cat['names_set'] = set(_cat['names'])
     return _cat
 
 
@@ -157,6 +158,17 @@ def op_sample(rng, flags=None, thd=None, uhdr=None, udata=None, extra=None, acti
     if flags is None:
         flags = (1 if thd is not None else 0) | (8 if uhdr is not None else 0)
     return {'k': 'sys', 'name': 'PERF_Event', 's': [flags, actionid, 0, 0], 'e': [flags, actionid, 0, 0], 'in': inner}
+
+
+def draw_uuid(rng):
+    """Image identity, hex: usually random, sometimes the null identity (a process without a shared cache announces one),
+    all ones, or one used before in this world."""
+    r = rng.random()
+    if r < 0.07:
+        return '00' * 16
+    if r < 0.1:
+        return rng.pick(['ff' * 16, '00' * 15 + '01', '01' + '00' * 15, '00' * 8 + 'ab' * 8])
+    return rng.randbytes(16).hex()
 
 
 def op_imap(rng, uuid_hex, addr, shared=False):
@@ -301,7 +313,8 @@ def gen_ops(rng, ctx, n_ops, mix=None, depth=0):
         elif f == 'gstr':
             ops.append(_with_between(rng, op_gstr(rng, ctx.new_string_id())))
         elif f == 'undecoded':
-            eid, _name = rng.pick(cat['undecoded'])
+            # few distinct undecoded ids per world: the same id turns up on several threads, alone and as a window
+            eid, _name = rng.pick(rng.undec) if getattr(rng, 'undec', None) and rng.chance(0.7) else rng.pick(cat['undecoded'])
             if rng.chance(0.5):
                 ops.append({'k': 'raw', 'id': eid, 'q': rng.pick([0, 3]), 'a': rng.words()})
             else:
@@ -333,6 +346,7 @@ def gen_threads(rng, nthreads, ops_lo=1, ops_hi=8, mix=None, peers=False):
     if rng.chance(0.1):
         tids[rng.randrange(nthreads)] = rng.pick(SPECIAL_TIDS)      # ids at the edges of the 64-bit range / of Python's int hashing
     rng.pool = tuple(tids) + tuple((ti + 1) * 1000 + 1 for ti in range(nthreads)) + tuple((ti + 1) * 100000 + 1 for ti in range(nthreads))
+    rng.undec = tuple(rng.pick(catalog()['undecoded']) for _ in range(2))
     for ti in range(nthreads):
         ctx = Ctx(ti, tids[ti], tids if peers else None)
         threads.append({'tid': tids[ti], 'ops': gen_ops(rng, ctx, rng.randint(ops_lo, ops_hi), mix)})
@@ -431,6 +445,9 @@ def tmap_model(tmap):
     return tp, pn
 
 
+DANGLING = 1 << 44      # string references at or above this value are in no index
+
+
 def gen_logs(rng, n, tids=None, with_tai=False):
     """n raw log records (dicts with string *indices*) + the string list."""
     strings = []
@@ -478,8 +495,48 @@ def gen_logs(rng, n, tids=None, with_tai=False):
         if rng.chance(0.2):
             ev['dm'] = {'pc': 0, 's': rng.randrange(4)}
         elif rng.chance(0.15):
-            ev['dm'] = {'pc': 1, 's': 0, 'seg': [{'lp': sidx(rng.ident()), 'p': {'rs': sidx('%d'), 'w': 0, 'p': 0, 't': []},
-                                                   'a': {'c': 1, 'p': 1, 'sc': 1, 'st': 2, 'or': 5}}]}
+            if rng.chance(0.4):
+                ev['dm'] = {'pc': 1, 's': 0, 'seg': [{'lp': sidx(rng.ident()), 'p': {'rs': sidx('%d'), 'w': 0, 'p': 0, 't': []},
+                                                       'a': {'c': 1, 'p': 1, 'sc': 1, 'st': 2, 'or': 5}}]}
+            else:
+                segs = []
+                for _s in range(rng.randint(1, 3)):
+                    seg = {}
+                    if rng.chance(0.7):
+                        seg['lp'] = sidx(rng.ident())
+                    if rng.chance(0.8):
+                        ph = {'w': rng.randrange(0, 20), 'p': rng.randrange(0, 20)}
+                        if rng.chance(0.7):
+                            ph['rs'] = sidx(rng.pick(['%d', '%s', '%{public}@', '%llx']))
+                        if rng.chance(0.6):
+                            ph['t'] = [sidx(rng.pick(['public', 'private', 'uuid_t', rng.ident()])) for _t in range(rng.randint(0, 2))]
+                        if rng.chance(0.3):
+                            ph['tn'] = sidx(rng.ident())
+                        if rng.chance(0.3):
+                            ph['ty'] = sidx(rng.ident())
+                        seg['p'] = ph
+                    if rng.chance(0.85):
+                        ar = {'c': rng.pick([1, 2, 2, 3])}
+                        if rng.chance(0.6):
+                            ar['p'] = rng.randrange(0, 4)
+                        avail = rng.pick([None, None, 0, 1, 2, 3])
+                        if avail is not None:
+                            ar['a'] = avail
+                        if ar['c'] == 1:
+                            if rng.chance(0.7):
+                                ar['sc'] = rng.randrange(0, 4)
+                            if rng.chance(0.7):
+                                ar['st'] = rng.randrange(0, 8)
+                        if rng.chance(0.8):
+                            if ar['c'] == 2:
+                                # the representation of an object argument is a string of the index; an argument that is not
+                                # available (0..2) may carry a reference the index does not list (DANGLING: never resolved)
+                                ar['or'] = sidx(rng.ident()) if avail in (None, 3) or rng.chance(0.5) else DANGLING + rng.randrange(0, 1000)
+                            else:
+                                ar['or'] = rng.randrange(0, 1 << 40)
+                        seg['a'] = ar
+                    segs.append(seg)
+                ev['dm'] = {'pc': len(segs), 's': rng.randrange(4), 'seg': segs}
         if rng.chance(0.25):
             ns = rng.pick([2, 3, 4, 5])
             ty = {2: [1, 2, 3], 3: [0, 1, 2, 0x10, 0x11], 4: [0, 1, 2, 0x10, 0x11], 5: [1, 2, 3, 4]}[ns]
@@ -561,6 +618,52 @@ def gen_writer(rng, version, threads, nrec_hint=0, logs=True, with_tai=False):
 STR_KEYS = set(['cm'] + LOG_OPTIONAL_STR)
 
 
+def dm_model(dm, strings):
+    """Reference decoding of a decomposed message: ('segments' list of dicts, and the set of (segment, key) whose value the
+    statement leaves open).  strings: index -> text."""
+    out = {'placeholder_count': dm['pc'], 'state': dm['s']}
+    open_ = set()
+    if not dm['pc']:
+        return out, open_
+    segs = []
+    for si, seg in enumerate(dm.get('seg', [])):
+        ps = {}
+        if 'lp' in seg:
+            ps['literal_prefix'] = strings[seg['lp']]
+        if 'p' in seg:
+            ph = {}
+            if 'rs' in seg['p']:
+                ph['raw_string'] = strings[seg['p']['rs']]
+            if seg['p'].get('t'):
+                ph['tokens'] = [strings[x] for x in seg['p']['t']]
+            if 'tn' in seg['p']:
+                ph['type_namespace'] = strings[seg['p']['tn']]
+            if 'ty' in seg['p']:
+                ph['type'] = strings[seg['p']['ty']]
+            ph['width'] = seg['p']['w']
+            ph['precision'] = seg['p']['p']
+            ps['placeholder'] = ph
+        if 'a' in seg:
+            a = seg['a']
+            pa = {}
+            for k, nm in (('a', 'availability'), ('p', 'privacy'), ('c', 'category')):
+                if k in a:
+                    pa[nm] = a[k]
+            if a.get('c') == 1:
+                for k, nm in (('sc', 'scalar_category'), ('st', 'scalar_type')):
+                    if k in a:
+                        pa[nm] = a[k]
+            if 'or' in a:
+                if 'a' not in a or a['a'] == 3:
+                    pa['object_representation'] = strings[a['or']] if a.get('c') == 2 else a['or']
+                else:
+                    open_.add(si)        # an argument that is not available: whether its representation is shown is not stated
+            ps['arg'] = pa
+        segs.append(ps)
+    out['segments'] = segs
+    return out, open_
+
+
 def _reindex(evs, remap):
     out = []
     for ev in evs:
@@ -577,9 +680,14 @@ def _reindex(evs, remap):
                     seg['lp'] = remap[seg['lp']]
                 if 'p' in seg:
                     p = dict(seg['p'])
-                    if 'rs' in p:
-                        p['rs'] = remap[p['rs']]
+                    for k in ('rs', 'tn', 'ty'):
+                        if k in p:
+                            p[k] = remap[p[k]]
+                    if 't' in p:
+                        p['t'] = [remap[x] for x in p['t']]
                     seg['p'] = p
+                if 'a' in seg and seg['a'].get('c') == 2 and 'or' in seg['a'] and seg['a']['or'] < DANGLING:
+                    seg['a'] = dict(seg['a'], **{'or': remap[seg['a']['or']]})
                 segs.append(seg)
             dm['seg'] = segs
             ev['dm'] = dm
